@@ -166,12 +166,90 @@ def _work(job: tuple) -> dict:
     return stats
 
 
+def long_circuit(n: int, nops: int, seed: int) -> Circuit:
+    """A plain unitary circuit (no placeholders): mostly two-qudit gates on
+    random pairs, some one- and three-qudit gates."""
+    rng = random.Random(seed)
+    c = Circuit(n)
+    for _ in range(nops):
+        k = rng.random()
+        if k < 0.2:
+            c.append_gate(RZGate(), rng.randrange(n), [rng.uniform(-3, 3)])
+        elif k < 0.92 or n < 3:
+            c.append_gate(CNOTGate(), rng.sample(range(n), 2))
+        else:
+            c.append_gate(ToffoliGate(), rng.sample(range(n), 3))
+    return c
+
+
+LONG_PASSES = {
+    'QuickPartitioner': lambda b: QuickPartitioner(b),
+    'GroupSingleQuditGatePass': lambda b: GroupSingleQuditGatePass(),
+}
+
+
+def _one_long(n: int, nops: int, b: int, seed: int, pname: str) -> list[str]:
+    pre = long_circuit(n, nops, seed)
+    c = pre.copy()
+    name = '%s(%d)' % (pname, b) if pname.endswith('Partitioner') else pname
+    try:
+        H.install()
+        H.drive(LONG_PASSES[pname](b).run(c, PassData(c)))
+        return contract(name, pre, c)
+    except Exception as e:     # noqa: BLE001
+        return ['raised %s: %s' % (type(e).__name__, e)]
+
+
+def _work_long(job: tuple) -> dict:
+    """Random long circuits through the partitioner every standard workflow
+    uses (its dependency blocking only matters for interleavings of three or
+    more bins, which need width and depth)."""
+    count, shard, seed = job
+    rng = random.Random(seed * 7 + shard)
+    stats: dict[str, dict[str, Any]] = {}
+    for i in range(count):
+        n = rng.randint(5, 8)
+        nops = rng.randint(8, 45)
+        b = rng.choice([3, 3, 4, 5])
+        cseed = rng.randrange(10 ** 9)
+        for pname in LONG_PASSES:
+            if pname != 'QuickPartitioner' and i % 8:
+                continue
+            st = stats.setdefault(pname + '(long)', {
+                'evaluated': 0, 'failures': [], 'samples': []})
+            st['evaluated'] += 1
+            errs = _one_long(n, nops, b, cseed, pname)
+            if errs and len(st['failures']) < 2:
+                cls_ = ''.join(ch for ch in errs[0][:40] if not ch.isdigit())
+                st['failures'].append({
+                    'class': cls_, 'function': pname + '.run',
+                    'kind': 'ensures', 'clause': errs[0][:300],
+                    'scenario': '%d qudits, %d random operations without '
+                                'placeholders (generator seed %d)' % (
+                                    n, nops, cseed),
+                    'args': '%s block size %d' % (pname, b),
+                    'observed': errs[0],
+                    'case': {'long': [n, nops, b, cseed, pname]},
+                })
+    return stats
+
+
 def replay(repo: str, rep: dict) -> dict | None:
     """Re-run one recorded circuit through one partitioner."""
     fi = rep.get('failing_input') or {}
     case = fi.get('case')
     if not case:
         return None
+    if 'long' in case:
+        # the defect may depend on the ids bins got earlier in the process
+        n, nops, b, cseed, pname = case['long']
+        hits = []
+        for _ in range(8):
+            hits += _one_long(n, nops, b, cseed, pname)[:1]
+            QuickPartitioner(2)
+        return {'case': case, 'reproduced': bool(hits),
+                'errors': hits[:3],
+                'input': C.describe(long_circuit(n, nops, cseed))}
     alpha = alphabet(case['n'], case['rich'])
     pre = build(case['n'], tuple(alpha[i] for i in case['seq']))
     mk = dict(partitioners((2, 3, 4)))[case['pass']]
@@ -212,11 +290,17 @@ def run(repo: str, tier: str, seed: int, jobs: int) -> dict:
             'block sizes %s' % (n, length, na, int(sample * 100), seed, bs))
         for sh in range(jobs):
             work.append((n, length, rich, bs, sh, jobs, sample, seed))
+    nlong = 12000 if tier == "quick" else 100000
+    lwork = [(nlong // max(1, jobs), sh, seed) for sh in range(max(1, jobs))]
+    desc.append('%d random circuits without placeholders, 5-8 qudits, 8-45 '
+                'operations, block sizes 3-5, through QuickPartitioner (every '
+                'eighth also through GroupSingleQuditGatePass)' % nlong)
     if jobs > 1:
         with mp.get_context('fork').Pool(jobs) as pool:
             parts = pool.map(_work, work, chunksize=1)
+            parts += pool.map(_work_long, lwork, chunksize=1)
     else:
-        parts = [_work(w) for w in work]
+        parts = [_work(w) for w in work] + [_work_long(w) for w in lwork]
     merged: dict[str, dict[str, Any]] = {}
     for p in parts:
         for name, st in p.items():
